@@ -1,6 +1,6 @@
 (** C03 — compiled evaluation implements the core-language semantics: property theorems only. *)
 From Coq Require Import ZArith List Bool Arith.
-From ChibiV Require Import C03.Defs C03.Model C03.Spec C03.Proofs C03.Simulation C03.SimCalls C03.SimBoxes C03.SimRest C03.SimClos C03.SimFull C03.SimProg C03.SimErr.
+From ChibiV Require Import C03.Defs C03.Model C03.Spec C03.Proofs C03.Simulation C03.SimCalls C03.SimBoxes C03.SimRest C03.SimClos C03.SimFull C03.SimProg C03.SimErr C03.SimStale.
 Import ListNotations.
 
 (** distinct variables of one frame (parameters, rest, internal defines) never share a slot *)
@@ -33,6 +33,93 @@ Theorem rest_unused_sound : forall id v body,
   rest_unused true id (Some v) body = true -> mentions id v body = false.
 Proof. exact Proofs.rest_unused_sound. Qed.
 Print Assumptions rest_unused_sound.
+
+(** sexp_rest_unused_p as of /repo 7788b66 (simplify.c:190-201: the set-vars are consulted before usedp; this is the
+    function [generate] uses for the procedure flags, [lam_flags_sv]): UNUSED_REST is set only if the body neither
+    references nor assigns the rest parameter AND the set-vars do not list it -- simplification may remove every
+    assignment while the set-vars keep the (stale) entry.  The usedp-only function violates the second half:
+    Proofs.rest_unused_stale_sv_refuted. *)
+Theorem rest_unused_sound_with_set_vars : forall id v sv body,
+  rest_unused_p true id (Some v) sv body = true -> mentions id v body = false /\ ~ In v sv.
+Proof. exact Proofs.rest_unused_p_sound. Qed.
+Print Assumptions rest_unused_sound_with_set_vars.
+
+(** ... and it is set whenever both hold (the optimisation is not lost: what must not change in the other direction) *)
+Theorem rest_unused_complete_with_set_vars : forall id v sv body,
+  mentions id v body = false -> ~ In v sv -> rest_unused_p true id (Some v) sv body = true.
+Proof. exact Proofs.rest_unused_p_complete. Qed.
+Print Assumptions rest_unused_complete_with_set_vars.
+
+(** a procedure flagged UNUSED_REST gets no rest slot from make_call: frame position #fixed is a surplus argument or
+    the CALLER's stack.  The prologue that boxes the assigned variables (vm.c:699-707, [box_code]) never stores
+    there: every LOCAL-SET it contains addresses a fixed parameter (0 <= k < #fixed) or an internal define (k < 0).
+    (F-C03-1 and the stale set-vars defect of C09 were both a boxed write to slot #fixed of a flagged procedure.) *)
+Theorem unused_rest_prologue_never_boxes_rest_slot : forall id ps v ls sv b k,
+  rest_unused_p true id (Some v) sv b = true ->
+  (forall x, In x sv -> In x (frame_vars ps (Some v) ls)) ->
+  In (ILocalSet k) (box_code ps (Some v) ls sv) ->
+  (0 <= k < Z.of_nat (length ps))%Z \/ (k < 0)%Z.
+Proof. exact Proofs.unused_rest_prologue_safe. Qed.
+Print Assumptions unused_rest_prologue_never_boxes_rest_slot.
+
+(** the procedure flags [generate] emits (vm.c generate_lambda via sexp_rest_unused_p) are a function of three SPEC-level
+    facts only: is there a rest parameter, does the body mention it, do the set-vars list it.  (SimStale.ExampleStale
+    applies the simulation theorem to the stale set-vars procedure [(lambda (a . r) a)] with set-vars [r].) *)
+Theorem procedure_flags_characterised : forall id r sv b,
+  lam_flags_sv id r sv b =
+  match r with
+  | None => 0
+  | Some v => if mentions id v b || existsb (Nat.eqb v) sv then PROC_VARIADIC else PROC_VARIADIC + PROC_UNUSED_REST
+  end.
+Proof. exact SimStale.lam_flags_sv_spec. Qed.
+Print Assumptions procedure_flags_characterised.
+
+(** ERROR OUTCOMES OF CALLS, protocol level: make_call (vm.c:1305-1356), entered for a procedure object the code generator
+    emitted for [Lam id ps r ls sv fv b] with the arguments vargs on top of the stack, fails or enters exactly as the
+    SPEC's application rule decides (Spec.v eval/App; [spec_arity_verdict] is its two tests in its order): too few
+    arguments -> ENotEnoughArgs, too many without rest parameter -> ETooManyArgs, otherwise the frame is entered --
+    whatever the flags say about the rest parameter (used / unused / stale set-vars entry).
+    PARTIAL with respect to "error outcomes of programs with calls": this is the call step only; the induction that
+    carries an error out of a callee's body through RET is not proved (tested per program: model VM vs SPEC). *)
+Theorem call_arity_errors_agree_partial : forall s id ps r sv b c vars vargs X rip rself rfp,
+  match spec_arity_verdict ps r (length vargs) with
+  | Some er => make_call s (VProc (lam_flags_sv id r sv b) (length ps) c vars) (vargs ++ X) (length vargs) rip rself rfp = Fail er
+  | None => exists s', make_call s (VProc (lam_flags_sv id r sv b) (length ps) c vars) (vargs ++ X) (length vargs) rip rself rfp = Next s'
+  end.
+Proof. exact SimStale.make_call_arity_agrees. Qed.
+Print Assumptions call_arity_errors_agree_partial.
+
+(** ... and [spec_arity_verdict] is the SPEC's own rule: the application evaluates to that error *)
+Theorem spec_application_arity_rule : forall fuel f args env st rvs st1 id ps r ls b cenv st2 er,
+  evlist (eval fuel) (rev args) env st = inl (rvs, st1) ->
+  eval fuel f env st1 = SVal (SClo id ps r ls b cenv) st2 ->
+  spec_arity_verdict ps r (length (rev rvs)) = Some er ->
+  eval (S fuel) (App f args) env st = SErr er.
+Proof. exact SimStale.spec_app_arity. Qed.
+Print Assumptions spec_application_arity_rule.
+
+(** every variable the prologue boxes has a slot: [fragA]'s side condition on the set-vars (they only list variables WITH a slot:
+    parameters, the LIVE rest parameter, internal defines) follows from what [wf_program] checks on the analyser's output (they only
+    list variables of the frame).  True since 7788b66 only: a stale entry for an unmentioned rest parameter used to name a variable
+    without slot.  First step of connecting the side conditions of the simulation theorems to [wf_program] (hand-over item 4). *)
+Theorem set_vars_only_list_variables_with_a_slot : forall SV id ps r ls b,
+  forallb (fun x => memn x (frame_vars ps r ls)) (SV id) = true ->
+  forallb (fun x => memn x (ps ++ live_of SV id r b ++ ls)) (SV id) = true.
+Proof. exact SimStale.set_vars_have_slots. Qed.
+Print Assumptions set_vars_only_list_variables_with_a_slot.
+
+(** second step (hand-over item 4): what [wf_program] (validated on every AST the real analyser produces) guarantees about the
+    free-variable list the free-variable pass computes for a lambda ([lam_fv] = the fv field of an annotated term): every entry is
+    a variable of an ENCLOSING lambda -- never of the lambda itself, never a global -- that is in scope where the lambda stands and
+    binds that name.  These are the hypothesis "forall p, In p fv -> exists m, snd p = Local m /\ m <> id" of the call lemma of
+    the simulation and the scoping half of [fv_okA].  [wf_free_occ_scoped] (every free occurrence of a well-formed term is bound
+    by a lambda of the scope) is the underlying induction.  PARTIAL with respect to item 4: that an entry owned by a lambda further
+    out is itself in the ENCLOSING lambda's fv list (fetchable through CLOSURE-REF) is not derived here. *)
+Theorem wf_free_variables_belong_to_enclosing_lambdas_partial : forall sc id ps r ls sv fv b p,
+  wf sc (Lam id ps r ls sv fv b) = true -> In p (lam_fv id ps r ls b) ->
+  exists m bd sv', snd p = Local m /\ m <> id /\ scope_lookup m sc = Some (bd, sv') /\ memn (fst p) bd = true.
+Proof. exact SimStale.wf_lam_fv_enclosing. Qed.
+Print Assumptions wf_free_variables_belong_to_enclosing_lambdas_partial.
 
 (** a lambda's fv list is exactly the set of variable occurrences of its body that it does not
     bind itself, without duplicates *)
